@@ -187,3 +187,8 @@ LEVEL_TEXT["C09"] = ("Seeded end-to-end exploration: the real client attached to
    "reported tracks, byte identity, order, gap-freedom (MPEG-TS, fMP4), normalised PTS/DTS and AbsoluteTime of every delivery are "
    "compared with the harness's record of what was written. Sampling of configurations, inputs and schedules.")
 NOT_APPLICABLE.pop("C09", None)
+
+META["C11"]["rule"] += (" ll-muxer profile: the real Low-Latency muxer as origin (writer paced on the simulated clock); every playlist "
+                        "reload must carry _HLS_skip=YES exactly when the first playlist advertised CAN-SKIP-UNTIL and every media "
+                        "download must be the preload hint of the latest playlist of its stream, one per playlist.")
+META["C11"]["real"] = CLI_REAL + ["ll-muxer profile: the real gohlslib Muxer as origin"]
